@@ -652,7 +652,15 @@ func runPool(mode string) sim.RigFunc {
 		if r.maxConns > 0 {
 			fmt.Fprintf(&b, "\t\tmax_conns %d\n", r.maxConns)
 		}
-		fmt.Fprintf(&b, "\t\tmax_fails %d\n", r.maxFails)
+		if st.Draw(12) == 0 {
+			// a number of failures nobody reaches ("never give up on a backend"), written as a value
+			// that does not fit the 32 bits the counter has
+			b.WriteString("\t\tmax_fails 4294967298\n")
+			r.maxFails = 1<<31 - 1
+			c.Probe("max_fails-beyond-32-bits")
+		} else {
+			fmt.Fprintf(&b, "\t\tmax_fails %d\n", r.maxFails)
+		}
 		if shape == 3 {
 			upLines(1)
 		}
